@@ -90,7 +90,7 @@ fn same_result(x: &Result<Vec<WarpOp>, &'static str>, y: &Result<Vec<WarpOp>, &'
     }
 }
 
-//@ also=C02 tier=quick timeout=2400 mem=14 bits=32 unwind=6 unwindset="memcmp=34" fns=warp_core::engine_impl::merge_parallel_deltas,warp_core::parallel::merge::merge_deltas,warp_core::tick_patch::WarpOp::sort_key
+//@ also=C02 tier=off timeout=2400 mem=14 bits=32 unwind=6 unwindset="memcmp=34" fns=warp_core::engine_impl::merge_parallel_deltas,warp_core::parallel::merge::merge_deltas,warp_core::tick_patch::WarpOp::sort_key
 //@ bounds="2 node upserts whose ids and type ids are symbolic in one byte each (so: different nodes, same node same value, same node different value); every distribution over workers: one worker in both emission orders, two workers in both worker orders"
 //@ desc="merge of per-worker deltas: the result (op list, or the conflict error) is identical for every assignment of the two ops to workers and every emission order; when Ok it is strictly ascending by op key with identical duplicates collapsed; divergent writes to one node are an error in every distribution"
 proof! {
